@@ -472,6 +472,9 @@ where
                 let idom = idoms[&vertex_index];
 
                 for predecessor in &self.predecessors[&vertex_index] {
+                    if *predecessor != start_index && !idoms.contains_key(predecessor) {
+                        continue; // predecessor is unreachable from the start node
+                    }
                     let mut runner = *predecessor;
                     while runner != idom {
                         df.get_mut(&runner).unwrap().insert(vertex_index);
@@ -487,6 +490,9 @@ where
         // Special handling for the start node as it can be part of a loop.
         // This is necessary because we don't have a dedicated entry node.
         for predecessor in &self.predecessors[&start_index] {
+            if *predecessor != start_index && !idoms.contains_key(predecessor) {
+                continue; // predecessor is unreachable from the start node
+            }
             let mut runner = *predecessor;
             loop {
                 df.get_mut(&runner).unwrap().insert(start_index);
